@@ -420,7 +420,13 @@ func cmdCheck(args []string) int {
 			reproduced := false
 			if o.Status == "sat" {
 				model := parseModel(o.Output)
-				payload["model"] = model
+				// prefer a small model: re-solve with every input length bounded, so that the
+				// counterexample can be materialised and replayed
+				if sm := smallModel(rep.fx, o, work); sm != nil {
+					model = sm
+					payload["model_note"] = "re-solved with input lengths <= 4096 to obtain a replayable counterexample"
+				}
+				payload["model"] = namedModel(o, model)
 				rr := tryReplay(eng, t, o, model, replayDir)
 				if rr != nil {
 					payload["replay"] = rr
@@ -593,12 +599,24 @@ func dischargeShared(fx *FnExec, obls []*Obligation, opt dischargeOpts, slots ch
 			continue
 		}
 		var vals []*Term
+		var valNames []string
 		for _, v := range o.Values {
 			if !v.T.Sort.IsArr() {
 				vals = append(vals, v.T)
+				valNames = append(valNames, v.Name)
 			}
 		}
-		script := c.Query(o.Assume, goal, vals, opt.timeoutMs)
+		script, gvs := c.QueryGV(o.Assume, goal, vals, opt.timeoutMs)
+		o.GVKeys = map[string]string{}
+		for i, k := range gvs {
+			if k != "" {
+				o.GVKeys[k] = valNames[i]
+			}
+		}
+		var altScripts []string
+		for _, alt := range o.Alts {
+			altScripts = append(altScripts, c.Query(o.Assume, c.Implies(o.PC, alt), nil, opt.timeoutMs))
+		}
 		wg.Add(1)
 		slots <- struct{}{}
 		go func(o *Obligation, script string) {
@@ -611,8 +629,7 @@ func dischargeShared(fx *FnExec, obls []*Obligation, opt dischargeOpts, slots ch
 			r := Solve(script, opt.workdir, o.Name, to, opt.all && !o.Cover)
 			o.Status, o.Backend, o.Ms, o.Output = r.Status, r.Backend, r.Ms, r.Output
 			if o.Status != "unsat" && !o.Cover {
-				for i, alt := range o.Alts {
-					s2 := c.Query(o.Assume, c.Implies(o.PC, alt), nil, to)
+				for i, s2 := range altScripts {
 					r2 := Solve(s2, opt.workdir, fmt.Sprintf("%s.alt%d", o.Name, i), to, false)
 					o.Ms += r2.Ms
 					if r2.Status == "unsat" {
@@ -665,4 +682,62 @@ func (eng *Engine) lemmaObligations(prop string) ([]*Obligation, *FnExec, error)
 			Assume: fx.assumes[:len(fx.assumes):len(fx.assumes)]})
 	}
 	return obls, fx, nil
+}
+
+// smallModel re-solves a failed obligation with all input lengths bounded.
+func smallModel(fx *FnExec, o *Obligation, work string) map[string]string {
+	c := fx.c
+	extra := append([]*Term{}, o.Assume...)
+	bounded := false
+	var vals []*Term
+	var names []string
+	for _, v := range o.Values {
+		if v.T.Sort.IsArr() {
+			continue
+		}
+		vals = append(vals, v.T)
+		names = append(names, v.Name)
+		if strings.HasSuffix(v.Name, ".len") && v.T.Sort == BV(64) {
+			extra = append(extra, c.BVCmp("bvule", v.T, c.BVInt(4096, 64)))
+			bounded = true
+		}
+		if strings.HasSuffix(v.Name, ".cap") && v.T.Sort == BV(64) {
+			extra = append(extra, c.BVCmp("bvule", v.T, c.BVInt(8192, 64)))
+		}
+	}
+	if !bounded {
+		return nil
+	}
+	script, gvs := c.QueryGV(extra, c.Implies(o.PC, o.Goal), vals, 10000)
+	r := Solve(script, work, o.Name+".small", 10000, false)
+	if r.Status != "sat" {
+		return nil
+	}
+	o.GVKeys = map[string]string{}
+	for i, k := range gvs {
+		if k != "" {
+			o.GVKeys[k] = names[i]
+		}
+	}
+	return parseModel(r.Output)
+}
+
+// namedModel renders a model under the input names (instead of solver symbols).
+func namedModel(o *Obligation, model map[string]string) map[string]string {
+	out := map[string]string{}
+	for k, v := range model {
+		n, ok := o.GVKeys[k]
+		if !ok {
+			n, ok = o.GVKeys[strings.Trim(k, "|")]
+		}
+		if !ok {
+			n = k
+		}
+		// byte contents that are zero are omitted to keep the file readable
+		if strings.HasSuffix(n, "]") && (v == "#x00") {
+			continue
+		}
+		out[n] = v
+	}
+	return out
 }
